@@ -81,21 +81,58 @@ def t2(x):
     return None if x is None else tuple(x)
 
 
-def build_jax(cfg):
+def default_history(cfg):
+    """Straight-line configuration: offset first, then the sub-domains in order."""
+    return ([{"do": "offset", "mean": cfg["offset_mean"], "std": cfg["offset_std"]}]
+            + [{"do": "add", "i": i} for i in range(len(cfg["spaces"]))])
+
+
+def check_history(cfg, hist):
+    """A history must END in the configuration the cfg describes (last offset, sub-domains in order)."""
+    offs = [h for h in hist if h["do"] == "offset"]
+    adds = [h["i"] for h in hist if h["do"] == "add"]
+    if not offs or offs[-1]["mean"] != cfg["offset_mean"] or offs[-1]["std"] != cfg["offset_std"] \
+            or adds != list(range(len(cfg["spaces"]))):
+        raise ValueError("history does not end in the configuration it claims")
+
+
+def build_jax(cfg, fresh=False):
     import nifty.re as jft
     m = jft.CorrelatedFieldMaker("")
-    m.set_amplitude_total_offset(offset_mean=cfg["offset_mean"], offset_std=tuple(cfg["offset_std"]))
-    for i, s in enumerate(cfg["spaces"]):
-        if cfg["model"] == "npa":
-            m.add_fluctuations(tuple(s["shape"]), distances=tuple(s["dist"]), fluctuations=tuple(s["flu"]),
-                               loglogavgslope=tuple(s["slope"]), flexibility=t2(s.get("flex")),
-                               asperity=t2(s.get("asp")), prefix="s%d" % i, harmonic_type="fourier",
-                               non_parametric_kind=cfg["np_kind"])
+    hist = default_history(cfg) if (fresh or not cfg.get("history")) else cfg["history"]
+    check_history(cfg, hist)
+    for h in hist:
+        if h["do"] == "offset":
+            m.set_amplitude_total_offset(offset_mean=h["mean"], offset_std=tuple(h["std"]))
+        elif h["do"] == "add":
+            i = h["i"]
+            s = cfg["spaces"][i]
+            if cfg["model"] == "npa":
+                m.add_fluctuations(tuple(s["shape"]), distances=tuple(s["dist"]), fluctuations=tuple(s["flu"]),
+                                   loglogavgslope=tuple(s["slope"]), flexibility=t2(s.get("flex")),
+                                   asperity=t2(s.get("asp")), prefix="s%d" % i, harmonic_type="fourier",
+                                   non_parametric_kind=cfg["np_kind"])
+            else:
+                m.add_fluctuations_matern(tuple(s["shape"]), distances=tuple(s["dist"]), scale=tuple(s["flu"]),
+                                          cutoff=tuple(s["cutoff"]), loglogslope=tuple(s["slope"]),
+                                          renormalize_amplitude=bool(cfg["renorm"]), prefix="s%d" % i,
+                                          non_parametric_kind=cfg["np_kind"])
+        elif h["do"] == "read":       # derived quantities read in between (must not freeze anything)
+            w = h["what"]
+            if w == "amplitude":
+                m.amplitude
+            elif w == "power_spectrum":
+                m.power_spectrum
+            elif w == "normalized":
+                m.get_normalized_amplitudes()
+            elif w == "finalize":
+                m.finalize()
+            elif w == "total_fluctuation":
+                pass                   # no such API in nifty.re
+            else:
+                raise ValueError(w)
         else:
-            m.add_fluctuations_matern(tuple(s["shape"]), distances=tuple(s["dist"]), scale=tuple(s["flu"]),
-                                      cutoff=tuple(s["cutoff"]), loglogslope=tuple(s["slope"]),
-                                      renormalize_amplitude=bool(cfg["renorm"]), prefix="s%d" % i,
-                                      non_parametric_kind=cfg["np_kind"])
+            raise ValueError(h)
     return m, m.finalize()
 
 
@@ -110,6 +147,8 @@ def has_classic(cfg):
 
 def variant(cfg):
     """Which non-default feature of the classic API a configuration exercises (part of the signature)."""
+    if cfg.get("history"):
+        return "history"
     if not isinstance(cfg["offset_std"], (list, tuple)):
         return "scalar_offset_std"
     if not cfg.get("adjust", True):
@@ -117,20 +156,42 @@ def variant(cfg):
     return "default"
 
 
-def build_classic(cfg):
+def build_classic(cfg, fresh=False):
     ift = quiet()
     m = ift.CorrelatedFieldMaker("")
-    ostd = cfg["offset_std"]
-    m.set_amplitude_total_offset(cfg["offset_mean"], tuple(ostd) if isinstance(ostd, (list, tuple)) else ostd)
-    for i, s in enumerate(cfg["spaces"]):
-        sp = ift.RGSpace(tuple(s["shape"]), tuple(s["dist"]))
-        if cfg["model"] == "npa":
-            m.add_fluctuations(sp, fluctuations=tuple(s["flu"]), flexibility=t2(s.get("flex")),
-                               asperity=t2(s.get("asp")), loglogavgslope=tuple(s["slope"]), prefix="s%d" % i)
+    hist = default_history(cfg) if (fresh or not cfg.get("history")) else cfg["history"]
+    check_history(cfg, hist)
+    for h in hist:
+        if h["do"] == "offset":
+            ostd = h["std"]
+            m.set_amplitude_total_offset(h["mean"], tuple(ostd) if isinstance(ostd, (list, tuple)) else ostd)
+        elif h["do"] == "add":
+            i = h["i"]
+            s = cfg["spaces"][i]
+            sp = ift.RGSpace(tuple(s["shape"]), tuple(s["dist"]))
+            if cfg["model"] == "npa":
+                m.add_fluctuations(sp, fluctuations=tuple(s["flu"]), flexibility=t2(s.get("flex")),
+                                   asperity=t2(s.get("asp")), loglogavgslope=tuple(s["slope"]), prefix="s%d" % i)
+            else:
+                m.add_fluctuations_matern(sp, scale=tuple(s["flu"]), cutoff=tuple(s["cutoff"]),
+                                          loglogslope=tuple(s["slope"]), prefix="s%d" % i,
+                                          adjust_for_volume=bool(cfg.get("adjust", True)))
+        elif h["do"] == "read":
+            w = h["what"]
+            if w == "amplitude":
+                m.amplitude
+            elif w == "power_spectrum":
+                m.power_spectrum
+            elif w == "normalized":
+                m.get_normalized_amplitudes()
+            elif w == "finalize":
+                m.finalize()
+            elif w == "total_fluctuation":
+                m.total_fluctuation
+            else:
+                raise ValueError(w)
         else:
-            m.add_fluctuations_matern(sp, scale=tuple(s["flu"]), cutoff=tuple(s["cutoff"]),
-                                      loglogslope=tuple(s["slope"]), prefix="s%d" % i,
-                                      adjust_for_volume=bool(cfg.get("adjust", True)))
+            raise ValueError(h)
     return m, m.finalize()
 
 
@@ -331,7 +392,32 @@ def fixed_cfgs():
         dict(co, model="npa", spaces=[sp3], np_kind="power", conv=CONVS[0], seed=27, offset_std=None),
         dict(co, model="npa", spaces=[sp], np_kind="power", conv=CONVS[1], seed=28, offset_std=1.0),
     ]
-    return classic_only + [
+    def off(mean, std):
+        return {"do": "offset", "mean": mean, "std": std}
+
+    def rd(w):
+        return {"do": "read", "what": w}
+    A, Bt = off(-0.2, [1.7, 0.3]), off(0.3, [0.5, 0.1])
+    histories = [
+        # both APIs: offset, add, reads, offset overwritten, (finalize)
+        dict(base, model="npa", spaces=[sp], np_kind="power", conv=CONVS[0], seed=31,
+             history=[{"do": "add", "i": 0}, A, rd("amplitude"), rd("power_spectrum"), Bt]),
+        dict(base, model="npa", spaces=[sp, sp2], np_kind="power", conv=CONVS[1], seed=32,
+             history=[A, {"do": "add", "i": 0}, rd("normalized"), {"do": "add", "i": 1}, rd("finalize"), Bt, rd("total_fluctuation")]),
+        dict(base, model="matern", spaces=[mt], np_kind="amplitude", conv=CONVS[0], seed=33,
+             history=[A, {"do": "add", "i": 0}, rd("finalize"), rd("total_fluctuation"), Bt, rd("normalized")]),
+        # JAX only
+        dict(base, model="matern", spaces=[mt2], np_kind="power", renorm=True, conv=CONVS[1], seed=34,
+             history=[A, {"do": "add", "i": 0}, rd("amplitude"), rd("finalize"), Bt]),
+        # classic only: scalar -> tuple, tuple -> scalar, tuple -> disabled
+        dict(co, model="npa", spaces=[sp], np_kind="power", conv=CONVS[0], seed=35,
+             history=[{"do": "add", "i": 0}, off(0.0, 2.0), rd("amplitude"), Bt]),
+        dict(co, model="matern", spaces=[mt3], np_kind="amplitude", conv=CONVS[1], seed=36, offset_std=0.5,
+             history=[A, {"do": "add", "i": 0}, rd("power_spectrum"), off(0.3, 0.5)]),
+        dict(co, model="npa", spaces=[sp3], np_kind="power", conv=CONVS[0], seed=37, offset_std=None,
+             history=[{"do": "add", "i": 0}, A, rd("normalized"), rd("finalize"), off(0.3, None)]),
+    ]
+    return histories + classic_only + [
         dict(base, model="npa", spaces=[sp], np_kind="power", conv=CONVS[0], seed=11),
         dict(base, model="npa", spaces=[sp, sp2], np_kind="power", conv=CONVS[1], seed=12),
         dict(base, model="matern", spaces=[mt], np_kind="amplitude", conv=CONVS[0], seed=13),
@@ -368,6 +454,17 @@ def observe(cfg, which):
             o["matern"] = [{"scl": float(a.scale(im.pos)), "ctf": float(a.cutoff(im.pos)), "slp": float(a.loglogslope(im.pos)),
                             "k": np.asarray(a.grid.harmonic_grid.mode_lengths, dtype=float).tolist()}
                            for a in im.jm.fluctuations]
+        if cfg.get("history"):
+            # the same final configuration made by a fresh maker in one go, same latent vector, same excitations
+            fr = Impl(dict(cfg, history=None), which)
+            if set(fr.pos) != set(im.pos) or any(np.shape(fr.pos[k]) != np.shape(im.pos[k]) for k in fr.pos):
+                # the model made through the history depends on other latent parameters than the fresh one
+                o["history_keys"] = sorted(set(fr.pos) ^ set(im.pos))
+            else:
+                fr.pos = dict(im.pos)
+                if which == "classic":
+                    fr.npos = fr.to_cl(fr.pos)
+                o["y_fresh"] = fr.field(xi).reshape(-1).tolist()
         if which == "classic":
             o["own_total"] = float(im.cm.total_fluctuation.force(im.npos).asnumpy()) ** 2
             o["own_slice"] = [float(im.cm.slice_fluctuation(s).force(im.npos).asnumpy()) ** 2 for s in range(len(cfg["spaces"]))]
@@ -409,6 +506,8 @@ def coq_checks(o):
         amp, rho, vol = o["amps"][0]
         # the realised variance is sum_{k>0} m_k A_k^2 / V^2 whatever the amplitude model is
         out.append(("variance_from_amplitude", "c_matern_fluct %s %s %s %s %s" % (TOLQ, cq(vol), cqs(rho), cqs(amp), cq(o["tot"]))))
+    if "history_keys" in o:
+        out.append(("history_domain", "false"))
     if is_exact(cfg) and not nozm:
         shapes = C.clist([cnats(s["shape"]) for s in cfg["spaces"]])
         vols = cqs([a[2] for a in o["amps"]])
@@ -487,6 +586,14 @@ def direct_failures(o, other=None):
     want[0] = azm if cfg.get("adjust", True) else azm / float(np.prod([a[2] for a in o["amps"]]))
     if np.abs(mr - want).max() > TOL * max(1.0, azm):
         out.append(("zero_mode", "spatial mean does not respond as azm * xi_0 only"))
+    if "history_keys" in o:
+        out.append(("history", "a maker configured through a history depends on other latent parameters than a fresh "
+                    "maker with the same final configuration: %r" % (o["history_keys"],)))
+    if "y_fresh" in o:
+        d = np.abs(np.array(o["y"]) - np.array(o["y_fresh"])).max()
+        if d > 1e-10 * max(1.0, np.abs(np.array(o["y_fresh"])).max()):
+            out.append(("history", "a maker configured through a history (reads of derived quantities, overwritten offset) "
+                        "gives a field differing by %.3e from a fresh maker with the same final configuration" % d))
     if other is not None:
         d = np.abs(np.array(o["y"]) - np.array(other["y"])).max()
         sc = max(1.0, np.abs(np.array(other["y"])).max())
@@ -555,6 +662,7 @@ class C28(C.Check):
 
     def __init__(self):
         self.obs = []
+        self.errors = []
 
     def translate(self, ctx):
         from tr import c28_norm
@@ -575,19 +683,37 @@ class C28(C.Check):
         quiet()
         sweep_old(self.prop)
         self.obs = []
+        self.errors = []
         checks, meta = [], []
         ndiff = dbad = 0
         for cfg in self.cases(ctx):
+            try:
+                if cfg.get("classic_only"):
+                    observe_first = observe(cfg, "classic")
+                else:
+                    observe_first = observe(cfg, "jax")
+            except Exception as e:      # the implementation raised on a legal configuration: a finding, not machinery
+                self.errors.append((cfg, "classic" if cfg.get("classic_only") else "jax", repr(e)[:300]))
+                checks.append("false")
+                meta.append({"cfg": cfg, "impl": self.errors[-1][1], "check": "exception"})
+                continue
             if cfg.get("classic_only"):
-                self.obs.append([observe(cfg, "classic")])
+                self.obs.append([observe_first])
                 for name, term in coq_checks(self.obs[-1][0]):
                     checks.append(term)
                     meta.append({"cfg": cfg, "impl": "classic", "check": name})
                 continue
-            oj = observe(cfg, "jax")
+            oj = observe_first
             pair = [oj]
             if has_classic(cfg):
-                oc = observe(cfg, "classic")
+                try:
+                    oc = observe(cfg, "classic")
+                except Exception as e:
+                    self.errors.append((cfg, "classic", repr(e)[:300]))
+                    checks.append("false")
+                    meta.append({"cfg": cfg, "impl": "classic", "check": "exception"})
+                    self.obs.append(pair)
+                    continue
                 pair.append(oc)
                 ndiff += 1
                 d = np.abs(np.array(oj["y"]) - np.array(oc["y"])).max()
@@ -657,6 +783,8 @@ class C28(C.Check):
                 res.add_failing(sig, "%s %s correlated field: %s [%s]" % (impl, cfg["model"], detail, name),
                                 {"cfg": cfg, "impl": impl})
 
+        for cfg, impl, err in getattr(self, "errors", []):
+            report(cfg, impl, [("exception", err)])
         for pair in self.obs:
             n += 1
             oj = pair[0]
